@@ -632,12 +632,21 @@ func runC09(tier string, r *Result) {
 			for n := 0; n <= len(text); n++ {
 				judge(text[:n])
 			}
+			// the same text with CRLF line ends, and with a blank behind every '#'
+			for _, alt := range []string{strings.ReplaceAll(text, "\n", "\r\n"), strings.ReplaceAll(strings.ReplaceAll(text, "#", "# "), "\n", "\r\n")} {
+				if alt == text || len(d.Members) > 10 {
+					continue
+				}
+				for n := 0; n <= len(alt); n++ {
+					judge(alt[:n])
+				}
+			}
 			r.Nodes++
 		}
 	}
 	r.sample(map[string]string{"text": "interface a.b\nmethod M() -> (f: ?[]"})
-	// (2) all byte strings up to a length over a 13-byte alphabet behind 10 prefixes
-	alpha := []byte{'#', '\n', ' ', '(', ')', ':', ',', 'a', 'A', '?', '[', 0, 0xff}
+	// (2) all byte strings up to a length over a 14-byte alphabet behind 10 prefixes
+	alpha := []byte{'#', '\n', ' ', '(', ')', ':', ',', 'a', 'A', '?', '[', 0, 0xff, '\r'}
 	maxLen := 5
 	if tier != "quick" {
 		maxLen = 6
@@ -754,6 +763,6 @@ func init() {
 		var s string
 		json.Unmarshal(raw, &s)
 		return judgeC09(s)
-	}, rule: "bounded-exhaustive: every byte-prefix of every description of the tree set in 3 layouts (default, trailing comments at every gap, empty comments at every gap, ending inside a comment); every byte string of length <=4 (thorough <=6) over {#, LF, space, (, ), :, comma, a, A, ?, [, NUL, 0xff} behind 11 prefixes; token sequences <=3; 25 depth/size/sharing bombs (64 KiB nesting and runs, alias graphs with 2^60 paths, 3000-long reference chains, recursive aliases); oracle: returns exactly one of tree/error under recover, a watchdog reports an input that makes no progress for 120 s",
+	}, rule: "bounded-exhaustive: every byte-prefix of every description of the tree set in 3 layouts (default, trailing comments at every gap, empty comments at every gap, ending inside a comment), each also with CRLF line ends and with a blank behind every '#'; every byte string of length <=4 (thorough <=6) over {#, LF, CR, space, (, ), :, comma, a, A, ?, [, NUL, 0xff} behind 11 prefixes; token sequences <=3; 25 depth/size/sharing bombs (64 KiB nesting and runs, alias graphs with 2^60 paths, 3000-long reference chains, recursive aliases); oracle: returns exactly one of tree/error under recover, a watchdog reports an input that makes no progress for 120 s",
 		assume: []string{"not all byte strings up to 64 KiB: an alphabet containing every terminal of the grammar plus garbage bytes, and all truncations of a bounded-exhaustive positive set"}}
 }
